@@ -605,6 +605,8 @@ class Exec:
             return ty.args[0] if ty.args else T.ANY
         if ty.kind == "dict":
             return ty.args[0] if ty.args else T.ANY
+        if ty.kind == "obj" and ty.args:  # generic library container (SimpleQueue[X])
+            return ty.args[0]
         return T.ANY
 
     def val_ty(self, ty: T.Ty) -> T.Ty:
@@ -747,7 +749,7 @@ class Exec:
             env["ret" if "result" in self.params else "result"] = self.result
         return env
 
-    def eval_clause(self, lam: ast.expr, env: dict[str, SV], old_heap: dict | None = None) -> list[tuple[str, Any]]:
+    def eval_clause(self, lam: ast.expr, env: dict[str, SV], old_heap: dict | None = None, tolerant: bool = False) -> list[tuple[str, Any]]:
         """Evaluate a contract lambda in spec mode; returns labelled z3 Bool terms
         (top-level list elements / `and` conjuncts are separate clauses)."""
         body = lam.body if isinstance(lam, ast.Lambda) else lam
@@ -760,7 +762,12 @@ class Exec:
             parts = [body]
         out = []
         for i, p in enumerate(parts):
-            v = self.spec_eval(p, env, old_heap)
+            try:
+                v = self.spec_eval(p, env, old_heap)
+            except Unsupported:
+                if tolerant:  # a clause we cannot state here is simply not assumed (sound: fewer hypotheses)
+                    continue
+                raise
             out.append((str(i), self.truth(v)))
         return out
 
@@ -1003,6 +1010,12 @@ class Exec:
             known = set(INDEX.classes) | set(INDEX.imports.get(self.module, {}))
             ty = T.parse_annotation(st.annotation, self_cls=self.cur_cls, known=known)
             if ty.kind == v.ty.kind:
+                v = SV(v.t, ty)
+        elif isinstance(st.target, ast.Name) and v.ty.kind == "obj" and not v.ty.args:
+            # a generic library object: adopt the declared element type (SimpleQueue[Dependency])
+            known = set(INDEX.classes) | set(INDEX.imports.get(self.module, {}))
+            ty = T.parse_annotation(st.annotation, self_cls=self.cur_cls, known=known)
+            if ty.kind == "obj" and ty.cls == v.ty.cls and ty.args:
                 v = SV(v.t, ty)
         self.assign(st.target, v)
 
